@@ -31,8 +31,15 @@ hints_by_round={
  7:["Look for a slip at a boundary in time or position: exactly at a slot, epoch or sync-committee-period boundary, the first epoch or slot 0, the far-future epoch, the instant of a fork or of genesis, the last element of a list, a deadline that is reached exactly; an inclusive bound that became exclusive (or the reverse) somewhere other than the main loop.",
     "Look for a slip in the ORDER of side effects inside one function: a state update (mark, cache entry, map publication, job removal, pending flag) moved before or after a call that can fail, block or be slow; a value read before the call that should be read after it (or the reverse); cleanup that now runs before the last use.",
     "Look for a slip in the plumbing BETWEEN two services or packages: the value one passes to the other (controller to attester / aggregator / proposer / sync committee services, proposer to relay service, relay service to bid strategy, account manager to validators manager, signer to domain provider): a field dropped or defaulted at the boundary, taken from the wrong one of two similar objects, or converted with the wrong unit."],
+ 8:["Look in the rarely used corners of the code the property depends on: components few deployments configure and few tests touch (the deadline builder-bid strategy, the legacy version-1 execution configuration, the immediate submitter, the dynamic and static graffiti providers, the latest / majority / first block root and header strategies, the sync committee subscriber, the standard (non-advanced) paths), or a branch for an older fork / data version.",
+    "Look for a slip around logging, metrics and tracing: a value computed only for a log line or a metric that now feeds control flow (or the reverse), an argument of a log call whose evaluation can panic or has a side effect, an early return placed inside an `if e := log.Trace(); e.Enabled()` style guard, a monitor call moved onto a path where its operand is nil.",
+    "Look for a slip in defaults and fallbacks: what happens when an optional collaborator or optional piece of configuration is absent (nil interface, zero value, empty list, missing key) - a guard removed, inverted or moved below its first use; a default applied at the wrong level; an empty result treated as an error (or an error as an empty result)."],
 }
-hints=hints_by_round.get(rnd, hints_by_round[7])
+hints=hints_by_round.get(rnd, hints_by_round[8])
+import glob as _glob
+earlier={}
+for _f in sorted(_glob.glob('/verif/seeded/*/meta.json')):
+    _m=json.load(open(_f)); earlier.setdefault(_m['property'],[]).append(_m['change'])
 i=rnd
 for k in sorted(props):
     p=props[k]; a=p['anchors']; q=p['quantifier']
@@ -49,7 +56,10 @@ Relevant files: {', '.join(a['files'])}
 Mechanisms meant to make it hold: {mech}
 """
     s='w%02d'%int(k[1:])
-    open(f'{root}/{s}.task.txt','w').write(tmpl.replace('@ROOT@',root).replace('@RND@',str(rnd)).replace('@S@',s).replace('@HINT@',hints[i%3])+t)
+    avoid=''
+    if rnd>=8 and earlier.get(k):
+        avoid='\n\nChanges that EARLIER ROUNDS already made for this property - choose something else, in a different function where possible:\n'+'\n'.join(' - '+c for c in earlier[k])+'\n'
+    open(f'{root}/{s}.task.txt','w').write(tmpl.replace('@ROOT@',root).replace('@RND@',str(rnd)).replace('@S@',s).replace('@HINT@',hints[i%3])+t+avoid)
     subprocess.run(['git','-C','/repo','worktree','add','--detach',f'{root}/{s}','HEAD'],capture_output=True)
     i+=1
 print(len(props),'tasks in',root)
